@@ -373,15 +373,30 @@ def _create_isotopomer_reactions(
         )
         new_rate_name = rate_name + "__" + rate_suffix
 
-        replacements = dict(zip(base_substrates, new_substrates, strict=True)) | dict(
-            zip(base_products, new_products, strict=True)
-        )
+        # A compound can take part more than once (2 A -> B), so replace each
+        # occurrence in the args by the next of its isotopomers
+        replacements: dict[str, list[str]] = {}
+        for base_name, new_name in zip(
+            [*base_substrates, *base_products],
+            [*new_substrates, *new_products],
+            strict=True,
+        ):
+            replacements.setdefault(base_name, []).append(new_name)
+
+        new_args = []
+        for k in args:
+            if (candidates := replacements.get(k)) is None:
+                new_args.append(k)
+            elif len(candidates) > 1:
+                new_args.append(candidates.pop(0))
+            else:
+                new_args.append(candidates[0])
 
         model.add_reaction(
             name=new_rate_name,
             fn=function,
             stoichiometry=new_stoichiometry,
-            args=[replacements.get(k, k) for k in args],
+            args=new_args,
         )
 
 
